@@ -1,7 +1,7 @@
 // C47 driver: "applying them to a body yields a spec that compiles with the same mass properties".
-// stdin: one body per line  "mass c0 c1 c2 f00 f11 f22 f01 f02 f12"  (the values that
-// apply_body_theta_inertia wrote into the body spec: mass, ipos, fullinertia; inertia = 0,
-// iquat = NaN, explicitinertial, compiler.inertiafromgeom = 2 as _infer_inertial leaves them).
+// stdin: one body per line  "ifg explicit hasgeom mass c0 c1 c2 f00 f11 f22 f01 f02 f12": the state in which
+// apply_body_theta_inertia left the spec: compiler.inertiafromgeom, body.explicitinertial, whether the body
+// carries a geom with mass, and the values it wrote (mass, ipos, fullinertia; inertia = 0, iquat = NaN).
 // The spec is built through the mjSpec C API of the tree under test and compiled by its compiler.
 // stdout per line:  "ok mass ipos[3] iquat[4] inertia[3]"  (hex floats)  or  "err <message>".
 #include "mjgen.h"
@@ -10,20 +10,22 @@ int main(void) {
   mjg_install_handlers();
   char line[4096];
   while (fgets(line, sizeof line, stdin)) {
-    double v[10];
+    double w[13]; double* v = w + 3;
     int n = 0; char* p = line;
-    for (; n < 10; n++) { char* e; v[n] = strtod(p, &e); if (e == p) break; p = e; }
-    if (n < 10) { printf("err parse\n"); continue; }
+    for (; n < 13; n++) { char* e; w[n] = strtod(p, &e); if (e == p) break; p = e; }
+    if (n < 13) { printf("err parse\n"); continue; }
     mjSpec* s = mj_makeSpec();
-    s->compiler.inertiafromgeom = 2;
+    s->compiler.inertiafromgeom = (int)w[0];
     mjsBody* world = mjs_findBody(s, "world");
     mjsBody* b = mjs_addBody(world, NULL);
     mjs_setName(b->element, "b");
     b->pos[0] = 0.1; b->pos[1] = 0.2; b->pos[2] = 0.3;
     mjsJoint* j = mjs_addJoint(b, NULL); j->type = mjJNT_FREE;
-    mjsGeom* g = mjs_addGeom(b, NULL); g->type = mjGEOM_BOX;
-    g->size[0] = 0.1; g->size[1] = 0.2; g->size[2] = 0.3; g->pos[0] = 0.05; g->pos[2] = 0.1;
-    b->explicitinertial = 1;
+    if (w[2] != 0) {
+      mjsGeom* g = mjs_addGeom(b, NULL); g->type = mjGEOM_BOX; g->density = 500;
+      g->size[0] = 0.1; g->size[1] = 0.2; g->size[2] = 0.3; g->pos[0] = 0.05; g->pos[2] = 0.1;
+    }
+    b->explicitinertial = (w[1] != 0);
     b->mass = v[0];
     for (int i = 0; i < 3; i++) { b->ipos[i] = v[1 + i]; b->inertia[i] = 0; }
     for (int i = 0; i < 4; i++) b->iquat[i] = NAN;
